@@ -247,6 +247,9 @@ func RunModel(c *last.Chunk, cfg *Config) *ModelRun {
 	in.Register("emit", func(in *lref.Interp, a []lref.Value) []lref.Value {
 		in.EmitCount++
 		if cfg.FaultAt > 0 && in.EmitCount == cfg.FaultAt {
+			if in.HandlerDepth > 0 {
+				in.Tags["fault-in-handler"]++
+			}
 			switch cfg.FaultKind {
 			case "table":
 				t := lref.NewTable()
